@@ -404,6 +404,7 @@ VmTrap vm_core_execute(VmState *vm) {
                     else
                         ev = val_int(ea.as.i64 + eb.as.i64);
                     vm_array_push(result, ev);
+                    vm_release(&vm->heap, ev); /* push retains; a freshly concatenated string has no other owner */
                 }
                 vm_release(&vm->heap, a);
                 vm_release(&vm->heap, b);
@@ -441,6 +442,7 @@ VmTrap vm_core_execute(VmState *vm) {
                     } else
                         ev = val_int(ea.as.i64 + scalar.as.i64);
                     vm_array_push(result, ev);
+                    vm_release(&vm->heap, ev); /* push retains; a freshly concatenated string has no other owner */
                 }
                 vm_release(&vm->heap, a);
                 vm_release(&vm->heap, b);
